@@ -2,6 +2,7 @@ package rules
 
 import (
 	"fmt"
+	"go/token"
 	"go/types"
 	"sort"
 	"strings"
@@ -60,7 +61,7 @@ func runC18(c *Ctx) {
 	r.Rule("R18-sources", "no code reachable from a search, evaluator or exploration reads the clock, the global random source or the environment; every rand.New is seeded from an explicit parameter; the engine builds its noise generator from (noise option, seed)", 3)
 	r.Rule("R18-maporder", "no order-sensitive iteration over a map in code reachable from searches (two reviewed, commutative exceptions are frozen by name)", 1)
 	r.Rule("R18-hashfree", "repetition decisions use the position hash only as a pre-filter of the exact comparison, so results do not depend on the hash seed", 1)
-	r.Rule("R18-state", "searches, evaluators and explorations write no package-level variable and no state that outlives the call, except per-search run objects, the exclusive board, the table - and the one frozen evaluator (sargon.Points) whose state is re-initialised by its wrapper before every search", 2)
+	r.Rule("R18-state", "searches, evaluators and explorations write no package-level variable and no state that outlives the call, except per-search run objects, the exclusive board, the table - and the one frozen evaluator (sargon.Points) whose state is re-initialised by its wrapper before every search", 3)
 
 	roots := searchRoots(c)
 	if len(roots) < 10 {
@@ -388,7 +389,72 @@ func c18State(c *Ctx, reach map[*ssa.Function][]*ssa.Function) {
 			where = c.pos(hook.Pos())
 		}
 		r.Check(good, "R18-state", "sargon.Hook.Search re-initialises the stateful evaluator before every search", where, "", "")
+		// ... and Reset really re-initialises: every frozen field is stored on every path to a return,
+		// and no receiver field is read before it has been stored (the new state does not depend on
+		// what an earlier search left behind).
+		if reset != nil && len(reset.Params) > 0 {
+			recv := reset.Params[0]
+			stores := map[string][]ssa.Instruction{}
+			var loads []*ssa.UnOp
+			var rets []ssa.Instruction
+			for _, b := range reset.Blocks {
+				for _, ins := range b.Instrs {
+					switch x := ins.(type) {
+					case *ssa.Store:
+						if fa, ok := x.Addr.(*ssa.FieldAddr); ok && fa.X == recv {
+							stores[faFieldName(fa)] = append(stores[faFieldName(fa)], ins)
+						}
+					case *ssa.UnOp:
+						if fa, ok := x.X.(*ssa.FieldAddr); ok && x.Op == token.MUL && fa.X == recv {
+							loads = append(loads, x)
+						}
+					case *ssa.Return:
+						rets = append(rets, ins)
+					}
+				}
+			}
+			var probs []string
+			for key := range usedFrozen {
+				f := key[strings.LastIndex(key, ".")+1:]
+				for _, ret := range rets {
+					dom := false
+					for _, st := range stores[f] {
+						if instrDominates(st, ret) {
+							dom = true
+						}
+					}
+					if !dom {
+						probs = append(probs, fmt.Sprintf("a return at %s is not preceded by a store to %s on every path", c.pos(reset.Pos()), f))
+					}
+				}
+			}
+			for _, ld := range loads {
+				f := faFieldName(ld.X.(*ssa.FieldAddr))
+				dom := false
+				for _, st := range stores[f] {
+					if instrDominates(st, ld) {
+						dom = true
+					}
+				}
+				if !dom {
+					probs = append(probs, fmt.Sprintf("reads %s (left by an earlier search) before storing it at %s", f, c.pos(ld.Pos())))
+				}
+			}
+			sort.Strings(probs)
+			r.Check(len(probs) == 0 && len(rets) > 0, "R18-state", "Points.Reset stores every piece of evaluator state on every path and reads none of the old state", c.pos(reset.Pos()), "", strings.Join(probs, "; "))
+		}
 	} else {
 		r.Pass("R18-state", "sargon.Hook.Search re-initialises the stateful evaluator before every search", "", "", "no stateful evaluator left")
 	}
+}
+
+// faFieldName returns the name of the field a FieldAddr selects.
+func faFieldName(fa *ssa.FieldAddr) string {
+	t := fa.X.Type().Underlying()
+	if pt, ok := t.(*types.Pointer); ok {
+		if st, ok := pt.Elem().Underlying().(*types.Struct); ok && fa.Field < st.NumFields() {
+			return st.Field(fa.Field).Name()
+		}
+	}
+	return fmt.Sprintf("#%d", fa.Field)
 }
